@@ -63,7 +63,11 @@ def check(ctx, entries, reach, rule="PANIC", modular=True, budget=300000):
         reach = sorted(p for p in ctx.cg.local_reachable(entries) if not F.body(p)["derived"])
     members = set(reach)
     eng = Engine(F, budget=budget)
-    eng.inline_filter = (lambda p: p not in members) if modular else None
+    from engine import cfg as _cfg
+    # members are analysed on their own and not inlined into each other — except small loop-free helpers (a guard such
+    # as `ensure_available(data, off, n)?` extracted into a function must still establish its fact at the call site)
+    small = {p for p in members if F.body(p) is not None and len(F.body(p)["blocks"]) <= 40 and not _cfg.natural_loops(F.body(p)) and F.body(p)["kind"] != "closure"}
+    eng.inline_filter = (lambda p: p not in members or p in small) if modular else None
     n = 0
     folds = fold_closures(F, reach)
     for p in reach:
